@@ -23,7 +23,7 @@ theorem C19_validate_spec (req caps : Caps) : validate req caps = true ↔ satis
 
 /-- UNKNOWN ENVIRONMENT. Against the zero value of `Capabilities` (what a nil `*Capabilities` stands for: nothing is known about
 the scan environment) exactly the plugins WITHOUT requirements validate — for all 60 requirement tuples. (The Go code
-dereferences the nil pointer instead: recorded finding C19/nil-capabilities-panic; judged by the `nilcaps` cases.) -/
+dereferences the nil pointer instead: repaired as ab64d335; judged by the `nilcaps` cases.) -/
 theorem C19_unknown_environment (req : Caps) :
     validate req ⟨.any, .any, false, false⟩ = true ↔ req = ⟨.any, .any, false, false⟩ := by
   obtain ⟨o, n, d, r⟩ := req
